@@ -1,7 +1,7 @@
 (* C18 — what a party that sees a presentation can derive (symbolic closure): a digest string is never opened *)
 From Coq Require Import List String ZArith NArith Bool Lia.
 Import ListNotations.
-From VF Require Import C18.Model C18.Proofs.
+From VF Require Import C18.Model C18.Proofs C18.Exact.
 Open Scope string_scope.
 Open Scope list_scope.
 
@@ -96,3 +96,150 @@ Proof. intro H. exact (derivable_inv payload ds _ H). Qed.
 Lemma derivable_values payload ds x :
   derivable (knowledge payload ds) (TVal x) -> clear payload ds x.
 Proof. intro H. exact (derivable_inv payload ds _ H). Qed.
+
+(* ---------- the clear part of an issued payload is the always-visible claims ---------- *)
+Definition leaf (x : val) : Prop := match x with VBool _ | VNum _ | VStr _ => True | _ => False end.
+
+Lemma sub_obj x m : sub x (VObj m) <-> x = VObj m \/ exists kv, In kv m /\ sub x (snd kv).
+Proof. cbn. rewrite fold_or. reflexivity. Qed.
+Lemma sub_arr x l : sub x (VArr l) <-> x = VArr l \/ exists y, In y l /\ sub x y.
+Proof. cbn. rewrite fold_or. reflexivity. Qed.
+
+Lemma leaf_sub_obj x m : leaf x -> sub x (VObj m) -> exists kv, In kv m /\ sub x (snd kv).
+Proof. intros Hl H. apply sub_obj in H as [->|H]; [contradiction|exact H]. Qed.
+Lemma leaf_sub_arr x l : leaf x -> sub x (VArr l) -> exists y, In y l /\ sub x y.
+Proof. intros Hl H. apply sub_arr in H as [->|H]; [contradiction|exact H]. Qed.
+
+Lemma leaf_not_in_digests a x l : leaf x -> ~ sub x (VArr (map (digest a) l)).
+Proof.
+  intros Hl H. apply (leaf_sub_arr _ _ Hl) in H as (y & Hy & Hs). apply in_map_iff in Hy as (d & <- & _).
+  cbn in Hs. destruct Hs as [->|[]]. exact Hl.
+Qed.
+
+(* [t]: a level as written by the issuer; [R]: what the specification shows of it with NOTHING selected *)
+Definition clear_ok (t : triple) (R : list (string * val)) : Prop :=
+  forall x, leaf x -> (exists kv, In kv (t_vis t) /\ sub x (snd kv)) -> exists kv', In kv' R /\ sub x (snd kv').
+
+Lemma clear_obj_v2 o cur t R x :
+  clear_ok t R -> leaf x -> sub x (VObj (t_vis t ++ [sd2 o cur (t_lvl t)])) -> sub x (VObj R).
+Proof.
+  intros Hok Hl H. apply (leaf_sub_obj _ _ Hl) in H as (kv & Hkv & Hs). apply in_app_or in Hkv as [Hkv|[<-|[]]].
+  - destruct (Hok x Hl) as (kv' & Hkv' & Hs'); [exists kv; split; assumption|].
+    destruct kv' as [k' y']. eapply sub_member; eassumption.
+  - exfalso. unfold sd2, sd_member in Hs. cbn [snd] in Hs.
+    destruct (map (digest (o_alg o)) (t_lvl t ++ decoy_discs cur (o_decoys o))) eqn:E.
+    + cbn in Hs. destruct Hs as [->|[]]. exact Hl.
+    + rewrite <- E in Hs. exact (leaf_not_in_digests _ _ _ Hl Hs).
+Qed.
+
+Lemma clear_obj_v5 o cur t R x :
+  clear_ok t R -> leaf x -> sub x (obj5 o cur (t_vis t) (t_lvl t)) -> sub x (VObj R).
+Proof.
+  intros Hok Hl H. unfold obj5 in H. apply (leaf_sub_obj _ _ Hl) in H as (kv & Hkv & Hs). apply in_app_or in Hkv as [Hkv|Hkv].
+  - destruct (Hok x Hl) as (kv' & Hkv' & Hs'); [exists kv; split; assumption|].
+    destruct kv' as [k' y']. eapply sub_member; eassumption.
+  - exfalso. unfold sd5 in Hkv. destruct (t_lvl t ++ decoy_discs cur (o_decoys o)) eqn:E; [contradiction|].
+    destruct Hkv as [<-|[]]. cbn [snd] in Hs. rewrite <- E in Hs. exact (leaf_not_in_digests _ _ _ Hl Hs).
+Qed.
+
+Lemma clear_ok_members {A} (m : list A) (f : A -> triple) (g : A -> list (string * val)) :
+  (forall e, In e m -> clear_ok (f e) (g e)) -> clear_ok (cat3 (map f m)) (flat_map g m).
+Proof.
+  intros H x Hl (kv & Hkv & Hs). unfold cat3 in Hkv. cbn [t_vis fst] in Hkv. apply in_flat_map in Hkv as (tk & Htk & Hkv).
+  apply in_map_iff in Htk as (e & <- & He). destruct (H e He x Hl) as (kv' & Hkv' & Hs'); [exists kv; split; assumption|].
+  exists kv'. split; [apply in_flat_map; exists e; split; assumption|assumption].
+Qed.
+
+Lemma clear_raw k x0 : clear_ok ([(k, x0)], [], []) [(k, x0)].
+Proof. intros x Hl (kv & [<-|[]] & Hs). exists (k, x0). split; [left; reflexivity|exact Hs]. Qed.
+Lemma clear_none lvl nst R : clear_ok ([], lvl, nst) R.
+Proof. intros x Hl (kv & [] & _). Qed.
+
+Lemma issue2_clear o cv : forall p, clear_ok (issue2 o p cv) (reveal2 o [] p cv).
+Proof.
+  induction cv as [| b | z | s | a0 e0 e s n v IH | l IH | m IH] using val_ind'; intro p;
+    try (intros x Hl (kv & [] & _)).
+  cbn [issue2 reveal2]. apply clear_ok_members. intros [k x0] Hkx.
+  rewrite Forall_forall in IH. specialize (IH (k, x0) Hkx). cbn [snd] in IH.
+  unfold member2, rmember2. cbn [fst snd memp orb]. rewrite orb_false_r.
+  assert (Hleaf : clear_ok (if memp (p ++ [SKey k]) (o_nonsd o) then ([(k, x0)], [], []) else ([], [mk 3 (p ++ [SKey k]) k x0], []))
+                           (if memp (p ++ [SKey k]) (o_nonsd o) then [(k, x0)] else [])).
+  { destruct (memp (p ++ [SKey k]) (o_nonsd o)); [apply clear_raw|apply clear_none]. }
+  destruct x0; try exact Hleaf. destruct (o_structured o); [|exact Hleaf].
+  intros x Hl (kv & [<-|[]] & Hs). cbn [snd] in Hs.
+  eexists. split; [left; reflexivity|]. cbn [snd]. exact (clear_obj_v2 o _ _ _ x (IH (p ++ [SKey k])) Hl Hs).
+Qed.
+
+Lemma elems5_clear o p l x : forall i, leaf x ->
+  (exists e, In e (fst (elems5 o p i l)) /\ sub x e) -> exists e', In e' (reveal_elems o [] p i l) /\ sub x e'.
+Proof.
+  induction l as [|y r IH]; intros i Hl (e & He & Hs); [contradiction|].
+  cbn [elems5 reveal_elems memp orb] in *. rewrite orb_false_r. specialize (IH (N.succ i) Hl).
+  destruct (elems5 o p (N.succ i) r) as [es ds]. destruct (memp (p ++ [SIdx i]) (o_nonsd o)); cbn [fst] in *.
+  - destruct He as [<-|He]; [exists y; split; [left; reflexivity|exact Hs]|].
+    destruct IH as (e' & He' & Hs'); [exists e; split; assumption|]. exists e'. split; [right|]; assumption.
+  - destruct He as [<-|He]; [|apply IH; exists e; split; assumption].
+    exfalso. apply (leaf_sub_obj _ _ Hl) in Hs as (kv & [<-|[]] & Hs). cbn in Hs. destruct Hs as [->|[]]. exact Hl.
+Qed.
+
+Lemma issue5_clear o cv : forall ign p t, issue5 o ign p cv = Ok t -> clear_ok t (reveal5 o [] ign p cv).
+Proof.
+  induction cv as [| b | z | s | a0 e0 e s n v IH | l IH | m IH] using val_ind'; intros ign p t Ht;
+    try (cbn in Ht; inversion Ht; intros x Hl (kv & [] & _)).
+  cbn [issue5] in Ht. destruct (seq3 (map (member5 (issue5 o) o ign p) m)) as [ts| | |] eqn:Es; cbn in Ht; try discriminate.
+  inversion Ht; subst t. cbn [reveal5]. apply seq3_inv in Es.
+  intros x Hl (kv & Hkv & Hs). unfold cat3 in Hkv. cbn [t_vis fst] in Hkv. apply in_flat_map in Hkv as (tk & Htk & Hkv).
+  destruct (Forall2_in_r _ _ _ _ Es Htk) as (rk & Hrk & Ek). apply in_map_iff in Hrk as ([k x0] & <- & Hkx).
+  rewrite Forall_forall in IH. specialize (IH (k, x0) Hkx). cbn [snd] in IH.
+  assert (Hm : clear_ok tk (rmember5 (reveal5 o []) o [] ign p (k, x0))).
+  { unfold member5 in Ek. unfold rmember5. cbn [fst snd memp] in *. set (cur := p ++ [SKey k]) in *. rewrite ?orb_false_r.
+    destruct x0 as [| b | z | s | a0 e0 e s n v | l | mm]; try discriminate.
+    - destruct (memp cur (o_nonsd o) || ign); injection Ek as <-; [apply clear_raw|apply clear_none].
+    - destruct (memp cur (o_nonsd o) || ign); injection Ek as <-; [apply clear_raw|apply clear_none].
+    - destruct (memp cur (o_nonsd o) || ign); injection Ek as <-; [apply clear_raw|apply clear_none].
+    - destruct (memp cur (o_nonsd o) || ign); injection Ek as <-; [apply clear_raw|apply clear_none].
+    - destruct (memp cur (o_nonsd o)); [injection Ek as <-; apply clear_raw|].
+      pose proof (fun y Hy => elems5_clear o cur l y 0%N Hy) as Harr. destruct (elems5 o cur 0 l) as [es eds]. cbn [fst] in Harr.
+      destruct (memp cur (o_always o) || o_structured o); injection Ek as <-; [|apply clear_none].
+      intros y Hy (kv0 & [<-|[]] & Hs0). cbn [snd] in Hs0. eexists. split; [left; reflexivity|]. cbn [snd].
+      unfold arr_member in Hs0. destruct es as [|e1 es']; [cbn in Hs0; destruct Hs0 as [->|[]]; contradiction|].
+      apply (leaf_sub_arr _ _ Hy) in Hs0. destruct (Harr y Hy Hs0) as (e' & He' & Hs'). eapply sub_elem; eassumption.
+    - destruct (memp cur (o_nonsd o)); [injection Ek as <-; apply clear_raw|].
+      destruct (issue5 o (negb (memp cur (o_recursive o) || memp cur (o_always o) || o_structured o)) cur (VObj mm)) as [t'| | |] eqn:Et;
+        cbn in Ek; try discriminate.
+      specialize (IH _ _ _ Et).
+      destruct (negb (memp cur (o_recursive o) && negb (memp cur (o_always o))) && (memp cur (o_recursive o) || memp cur (o_always o) || o_structured o));
+        injection Ek as <-; [|apply clear_none].
+      intros y Hy (kv0 & [<-|[]] & Hs0). cbn [snd] in Hs0. eexists. split; [left; reflexivity|]. cbn [snd].
+      exact (clear_obj_v5 o cur t' _ y IH Hy Hs0). }
+  destruct (Hm x Hl) as (kv' & Hkv' & Hs'); [exists kv; split; assumption|].
+  exists kv'. split; [apply in_flat_map; exists (k, x0); split; assumption|assumption].
+Qed.
+
+(* every leaf value readable in the signed payload without opening a digest belongs to an always-visible claim
+   (what the specification shows when NOTHING is selected), or is the registered iss / cnf / _sd_alg *)
+Lemma clear_payload_visible o claims payload ds x :
+  issue o claims = Ok (payload, ds) -> leaf x -> sub x payload ->
+  sub x (reveal o [] claims) \/ x = VStr (alg_name (o_alg o)).
+Proof.
+  intros Hi Hl Hs. unfold issue in Hi. destruct (key_exists_sd (VObj claims)); [discriminate|].
+  assert (Hreg : forall rest R, (forall y, leaf y -> sub y (VObj rest) -> sub y (VObj R)) ->
+             sub x (VObj (registered o ++ rest)) -> sub x (VObj (registered_out o ++ R)) \/ x = VStr (alg_name (o_alg o))).
+  { intros rest R HR H. apply (leaf_sub_obj _ _ Hl) in H as (kv & Hkv & Hsk). apply in_app_or in Hkv as [Hkv|Hkv].
+    - unfold registered in Hkv. rewrite !in_app_iff in Hkv. destruct Hkv as [Hkv|[Hkv|Hkv]].
+      + left. destruct kv as [k y]. eapply sub_member; [exact Hsk|]. unfold registered_out. apply in_or_app. left.
+        apply in_or_app. left. exact Hkv.
+      + left. destruct kv as [k y]. eapply sub_member; [exact Hsk|]. unfold registered_out. apply in_or_app. left.
+        apply in_or_app. right. exact Hkv.
+      + right. destruct Hkv as [<-|[]]. cbn in Hsk. destruct Hsk as [->|[]]. reflexivity.
+    - left. assert (Hr : sub x (VObj rest)) by (destruct kv as [k y]; eapply sub_member; eassumption).
+      apply HR in Hr; [|exact Hl]. apply (leaf_sub_obj _ _ Hl) in Hr as ([k y] & Hy & Hsy).
+      eapply sub_member; [exact Hsy|]. apply in_or_app. right. exact Hy. }
+  unfold reveal. destruct (o_v5 o).
+  - destruct (issue5 o false [] (VObj claims)) as [t| | |] eqn:Et; cbn in Hi; try discriminate.
+    assert (E : payload = VObj (registered o ++ t_vis t ++ sd5 o [] (t_lvl t))) by (inversion Hi; reflexivity).
+    rewrite E in Hs. apply (Hreg _ _ (fun y Hy H => clear_obj_v5 o [] t _ y (issue5_clear o _ _ _ _ Et) Hy H) Hs).
+  - assert (E : payload = VObj (registered o ++ t_vis (issue2 o [] (VObj claims)) ++ [sd2 o [] (t_lvl (issue2 o [] (VObj claims)))]))
+      by (inversion Hi; reflexivity).
+    rewrite E in Hs. apply (Hreg _ _ (fun y Hy H => clear_obj_v2 o [] _ _ y (issue2_clear o _ []) Hy H) Hs).
+Qed.
